@@ -142,8 +142,10 @@ def uniteLoop (other : LDfa) : Nat → UState → Except Err LDfa
     | .error e => .error e
     | .ok s' => if s'.changed then uniteLoop other fuel s' else .ok s'.res
 
-/-- `self.unite(&other)`. `fixK = false` is the code as it is: the result keeps `self.k`
-    (finding F19); `fixK = true` takes the maximum of both. Every pass that reports a change maps a
+/-- `self.unite(&other)`. `fixK = true` is the code as it is now (after the `fix:` commit
+    "LookaheadDFA::unite keeps the larger lookahead size of both operands"): `k` is the maximum of
+    both; `fixK = false` is the behaviour before the repair (the result kept `self.k`), kept so that
+    the counterexample stays a checked theorem and a regression can be attributed. Every pass that reports a change maps a
     new to-state of `other`, so `other.trans.length + 2` passes suffice. -/
 def unite (fixK : Bool) (self other : LDfa) : Except Err LDfa :=
   match uniteLoop other (other.trans.length + 2) ⟨self, [(0, 0)], false⟩ with
@@ -367,11 +369,13 @@ def isPrefixOf' : List Nat → List Nat → Bool
   | _ :: _, [] => false
   | a :: as, b :: bs => a == b && isPrefixOf' as bs
 
-/-- Pairwise disjoint and prefix-free: no tuple (of any production) is a proper prefix of another,
-    and no tuple belongs to two productions. -/
+/-- Non-empty, pairwise disjoint and prefix-free: every production has a tuple (in an accepted
+    grammar every production is productive and every non-terminal reachable, so FIRST_k·FOLLOW_k is
+    not empty), no tuple (of any production) is a proper prefix of another, and no tuple belongs to
+    two productions. -/
 def setsOk (sets : List (Nat × List Tuple)) : Bool :=
   let all := sets.flatMap (fun s => s.2.map (fun t => (s.1, t)))
-  all.all (fun a => all.all (fun b =>
+  sets.all (fun s => !s.2.isEmpty) && all.all (fun a => all.all (fun b =>
     (if a.2 == b.2 then a.1 == b.1 else true) && (a.2 == b.2 || !isPrefixOf' a.2 b.2)))
 
 def setsDepth (sets : List (Nat × List Tuple)) : Nat :=
@@ -445,13 +449,13 @@ def handleLad : List String → Option String
     let k ← k.toNat?
     let sets ← parseSets sets
     if !setsNormal k sets then none else
-    match ← uniteAll false k sets with
+    match ← uniteAll true k sets with
     | .ok d => some s!"ok {d.k} {Proto.showInts d.prods} {showEdges d.trans}"
     | .error e => some (showErr e)
   | _ => none
 
 def compileSets (k : Nat) (sets : List (Nat × List Tuple)) (sep : String) : Option String :=
-  match uniteAll false k sets with
+  match uniteAll true k sets with
   | none => none
   | some (.error e) => some (showErr e)
   | some (.ok d) =>
@@ -554,6 +558,61 @@ def handleC07CheckE2e : List String → Option String
     | some r => some r
     | none => some ((rs.find? (· != "ok")).getD "ok")
   | _ :: _ :: _ => some "fail no-automata"
+  | _ => none
+
+/-- Hypothesis of `minimize_preserves_run` on a compiled automaton: accepting states have no
+    outgoing transitions (true of tries of prefix-free tuple sets). -/
+def finalsAreLeaves (c : LaDfa) : Bool :=
+  (c.prod0 == -1 || c.trans.all (fun t => t.src != 0)) &&
+  c.trans.all (fun t => t.prod == -1 || c.trans.all (fun u => u.src != t.dst))
+
+-- @handler c07-lad-check handleC07LadCheck
+/-- `c07-lad-check <sets> <reply…>`: the un-minimised automaton (trie + unite) already predicts `p`
+    on exactly `p`'s tuples, for pairwise disjoint prefix-free sets. -/
+def handleC07LadCheck : List String → Option String
+  | sets :: reply => do
+    let sets ← parseSets sets
+    if !setsOk sets then (if reply == ["panic"] then some "fail panic" else some "ok") else
+    match reply with
+    | ["ok", k, prods, edges] => do
+      let k ← k.toNat?
+      let prods ← Proto.parseInts prods
+      let edges ← parseEdges edges
+      let d := compileRaw ⟨prods, edges, k⟩
+      if !sortedTrans d.trans then some "fail transitions-not-strictly-sorted" else
+      match langCheck sets d with
+      | some w => some s!"fail string-{Proto.showNats w}-predicts-{(runRef d 0 d.prod0 w).getD (-1)}-but-tuple-sets-say-{(setsLookup sets w).getD (-1)}"
+      | none => if k < setsDepth sets then some s!"fail k-field-{k}-below-depth-{setsDepth sets}" else
+                if k > setsDepth sets then some s!"fail k-field-{k}-above-depth-{setsDepth sets}" else some "ok"
+    | _ => some "fail no-automaton-for-disjoint-prefix-free-sets"
+  | _ => none
+
+-- @handler c07-min-check handleC07MinCheck
+/-- `c07-min-check <k> <prods> <edges> <reply…>`: minimisation does not change which production any
+    token string predicts (all strings up to length 4 over the automaton's terminals plus a foreign
+    one), keeps `k`, and yields a strictly sorted transition list — for inputs whose accepting
+    states are leaves. -/
+def handleC07MinCheck : List String → Option String
+  | k :: prods :: edges :: reply => do
+    let k ← k.toNat?
+    let prods ← Proto.parseInts prods
+    let edges ← parseEdges edges
+    let c := compileRaw ⟨prods, edgesToMap edges, k⟩
+    if !finalsAreLeaves c then (if reply == ["panic"] then some "fail panic" else some "ok") else
+    match reply with
+    | ["ok", p0, tr, k'] => do
+      let p0 ← Proto.parseInt p0
+      let tr ← parseTrans tr
+      let k' ← k'.toNat?
+      let d : LaDfa := ⟨p0, tr, k'⟩
+      let alpha0 := dedupNat (c.trans.map (·.term))
+      let alpha := alpha0 ++ [alpha0.foldl max 0 + 1]
+      if !sortedTrans tr then some "fail transitions-not-strictly-sorted" else
+      if k' != k then some "fail k-changed" else
+      match (allStrings alpha 4).find? (fun w => runRef d 0 p0 w != runRef c 0 c.prod0 w) with
+      | some w => some s!"fail string-{Proto.showNats w}-predicts-{(runRef d 0 p0 w).getD (-1)}-after-and-{(runRef c 0 c.prod0 w).getD (-1)}-before-minimisation"
+      | none => some "ok"
+    | _ => some "fail no-automaton"
   | _ => none
 
 end ParolModel
